@@ -4,8 +4,8 @@
   Model: `QExPy/Model/Settings.lean` (state machine `step`, `run`, `withTempMc`) over the tables
   generated from qexpy/settings/settings.py on every run (`QExPy/Generated/Settings.lean`):
   enum members and their literal strings, the strings each enum setter accepts, `initCfg`
-  (dict of `Settings.__init__`), `resetCfg` (assignments of `Settings.reset`) and whether
-  `use_mc_sample_size` restores in a `finally:`.
+  (dict of `Settings.__init__`), `resetCfg` (assignments of `Settings.reset`) and after which outcomes of the
+  wrapped function `use_mc_sample_size` writes the saved size back (`tempRestores`).
 -/
 import QExPy.Lemmas.Settings
 
@@ -213,61 +213,66 @@ theorem C20_wf_run (ops : List Op) (c : Cfg) (h : WF c) : WF (run c ops) := by
 
 /-- **C20 (override: a bad size is refused atomically).** If the decorator's own request for
     the temporary size is rejected, the wrapped computation never runs and no option changes. -/
-theorem C20_temp_reject {ρ : Type} (raised : ρ → Bool) (k : Arg) (f : Cfg → Cfg × ρ) (c : Cfg)
-    (h : (step c (.setMcSize k)).2 = .reject) : withTempMc raised k f c = (c, none) := by
+theorem C20_temp_reject {ρ : Type} (outcome : ρ → Outcome) (k : Arg) (f : Cfg → Cfg × ρ) (c : Cfg)
+    (h : (step c (.setMcSize k)).2 = .reject) : withTempMc outcome k f c = (c, none) := by
   unfold withTempMc
   split
   · rfl
   · rename_i c1 heq; rw [heq] at h; cases h
 
 /-- **C20 (override: inside, outcome, restoration — full characterisation).** With a positive
-    integer size `k`, for ANY wrapped computation `f` — returning or raising, changing whatever
-    options it likes, including the sample size itself —
+    integer size `k`, for ANY wrapped computation `f` — returning or raising an exception of ANY
+    class (`outcome r` may be `.raised cls false`: KeyboardInterrupt, SystemExit, GeneratorExit,
+    a direct subclass of BaseException), changing whatever options it likes, including the
+    sample size itself —
     * `f` runs on the state with the sample size `k` and every other option untouched,
     * its result (return value or exception) comes out unchanged,
     * afterwards the sample size is what it was before the call, and every other option is
       what `f` left. -/
-theorem C20_temp_restored {ρ : Type} (raised : ρ → Bool) (k : Int) (hk : 0 < k)
+theorem C20_temp_restored {ρ : Type} (outcome : ρ → Outcome) (k : Int) (hk : 0 < k)
     (f : Cfg → Cfg × ρ) (c : Cfg) (hc : 0 < c.mcSize) :
-    withTempMc raised (.scalar (.int k)) f c =
+    withTempMc outcome (.scalar (.int k)) f c =
       ({ (f { c with mcSize := k }).1 with mcSize := c.mcSize },
        some (f { c with mcSize := k }).2) := by
-  simp [withTempMc, step, intArg, mcSizeLower_eq, hk, hc, Gen.tempRestoreInFinally]
+  simp [withTempMc, step, intArg, mcSizeLower_eq, hk, hc, tempRestores_every_outcome]
 
 /-- **C20 (override restored, returning and raising).** Whatever the wrapped computation does and
-    however it ends, and whatever size was requested (valid or not), the sample size after the
-    call is the one before the call. -/
-theorem C20_temp_size_restored {ρ : Type} (raised : ρ → Bool) (k : Arg) (f : Cfg → Cfg × ρ)
-    (c : Cfg) (hc : 0 < c.mcSize) : (withTempMc raised k f c).1.mcSize = c.mcSize := by
+    however it ends (any `Outcome`: returned, raised an `Exception`, raised a `BaseException` that
+    is not an `Exception`), and whatever size was requested (valid or not), the sample size after
+    the call is the one before the call. -/
+theorem C20_temp_size_restored {ρ : Type} (outcome : ρ → Outcome) (k : Arg) (f : Cfg → Cfg × ρ)
+    (c : Cfg) (hc : 0 < c.mcSize) : (withTempMc outcome k f c).1.mcSize = c.mcSize := by
   cases hs : intArg Gen.mcSizeLower k with
   | none => simp [withTempMc, step, hs]
   | some z =>
     simp only [withTempMc, step, hs]
-    simp [intArg, mcSizeLower_eq, hc, Gen.tempRestoreInFinally]
+    simp [intArg, mcSizeLower_eq, hc, tempRestores_every_outcome]
 
 /-- **C20 (override nesting is LIFO).** An override `k2` nested in the body of an override `k1`:
     the inner computation sees `k2`, the rest of the outer body sees `k1` again, and after the
     outer call the original size is back — for returning and raising computations alike. -/
-theorem C20_temp_nested {ρ : Type} (raised : ρ → Bool) (raised' : Option ρ → Bool)
+theorem C20_temp_nested {ρ : Type} (outcome : ρ → Outcome) (outcome' : Option ρ → Outcome)
     (k1 k2 : Int) (h1 : 0 < k1) (h2 : 0 < k2) (f : Cfg → Cfg × ρ) (c : Cfg) (hc : 0 < c.mcSize) :
-    let inner := withTempMc raised (.scalar (.int k2)) f
+    let inner := withTempMc outcome (.scalar (.int k2)) f
     let c1 : Cfg := { c with mcSize := k1 }
     -- the inner computation runs with k2
     inner c1 = ({ (f { c1 with mcSize := k2 }).1 with mcSize := k1 }, some (f { c1 with mcSize := k2 }).2) ∧
     -- after the inner override the outer one is in force again
     (inner c1).1.mcSize = k1 ∧
     -- after the outer override the original size is back
-    (withTempMc raised' (.scalar (.int k1)) inner c).1.mcSize = c.mcSize := by
+    (withTempMc outcome' (.scalar (.int k1)) inner c).1.mcSize = c.mcSize := by
   refine ⟨?_, ?_, ?_⟩
-  · exact C20_temp_restored raised k2 h2 f _ h1
-  · rw [C20_temp_restored raised k2 h2 f _ h1]
-  · exact C20_temp_size_restored raised' _ _ c hc
+  · exact C20_temp_restored outcome k2 h2 f _ h1
+  · rw [C20_temp_restored outcome k2 h2 f _ h1]
+  · exact C20_temp_size_restored outcome' _ _ c hc
 
-/-- non-vacuity: a raising computation that itself changes the sample size, under override 100
-    from 5000 — the size comes back to 5000 and the exception comes out -/
-example : withTempMc (fun (r : Bool) => r) (.scalar (.int 100))
-    (fun c => ({ c with mcSize := 7, printStyle := 1 }, true)) { Gen.initCfg with mcSize := 5000 } =
-    ({ Gen.initCfg with mcSize := 5000, printStyle := 1 }, some true) := by decide
-
+/-- non-vacuity: a computation that itself changes the sample size and is then interrupted
+    (`KeyboardInterrupt` does not derive from `Exception`), under override 100 from 5000 — the size
+    comes back to 5000 and the exception comes out -/
+example : withTempMc (fun (r : Outcome) => r) (.scalar (.int 100))
+    (fun c => ({ c with mcSize := 7, printStyle := 1 }, .raised "KeyboardInterrupt" false))
+    { Gen.initCfg with mcSize := 5000 } =
+    ({ Gen.initCfg with mcSize := 5000, printStyle := 1 },
+     some (.raised "KeyboardInterrupt" false)) := by decide
 
 end QExPy
